@@ -3138,43 +3138,49 @@ impl Fsm {
             );
         }
 
-        let result = if src.is_empty() {
-            match datamodel.evaluate_content(&inv.content) {
-                None => Err("No content to execute".to_string()),
-                Some(content) => {
-                    let mut global = get_global!(datamodel);
-                    let session_id = global.session_id;
-
-                    let actions = global.actions.get_copy();
-                    global
-                        .executor
-                        .as_mut()
-                        .unwrap()
-                        .execute_with_data_from_xml(
-                            content.lock().unwrap().to_string().as_str(),
-                            actions,
-                            &name_values,
-                            Some(session_id),
-                            &invokeId,
-                            FinishMode::DISPOSE,
-                            #[cfg(feature = "Trace")]
-                            self.tracer.trace_mode(),
-                        )
+        // The child is started without holding the global data of this session: starting locks
+        // the executor state and the I/O processors, which sending sessions and timers lock in
+        // the opposite order.
+        let (session_id, actions, executor) = {
+            let global = get_global!(datamodel);
+            (
+                global.session_id,
+                global.actions.get_copy(),
+                global.executor.clone(),
+            )
+        };
+        let result = match executor {
+            None => Err("Executor not available".to_string()),
+            Some(mut executor) => {
+                if src.is_empty() {
+                    match datamodel.evaluate_content(&inv.content) {
+                        None => Err("No content to execute".to_string()),
+                        Some(content) => {
+                            let xml = content.lock().unwrap().to_string();
+                            executor.execute_with_data_from_xml(
+                                xml.as_str(),
+                                actions,
+                                &name_values,
+                                Some(session_id),
+                                &invokeId,
+                                FinishMode::DISPOSE,
+                                #[cfg(feature = "Trace")]
+                                self.tracer.trace_mode(),
+                            )
+                        }
+                    }
+                } else {
+                    executor.execute_with_data(
+                        src.to_string().as_str(),
+                        actions,
+                        &name_values,
+                        Some(session_id),
+                        &invokeId,
+                        #[cfg(feature = "Trace")]
+                        self.tracer.trace_mode(),
+                    )
                 }
             }
-        } else {
-            let mut global = get_global!(datamodel);
-            let session_id = global.session_id;
-            let actions = global.actions.get_copy();
-            global.executor.as_mut().unwrap().execute_with_data(
-                src.to_string().as_str(),
-                actions,
-                &name_values,
-                Some(session_id),
-                &invokeId,
-                #[cfg(feature = "Trace")]
-                self.tracer.trace_mode(),
-            )
         };
 
         match result {
